@@ -1,4 +1,5 @@
 import PharmpyProofs.C17.Lemmas
+import PharmpyModel.Generated.C17Task
 /-
   C17 — Workflows execute as their task graph specifies.  Property theorems only.
 -/
@@ -634,6 +635,67 @@ theorem compose_after_replace_exact (g other : DiGraph) (old new t : Nat) (hg : 
       exact fun h => h.elim hold hoo
   · rw [(add_task_to_outputs_exact _ t hw).2.1]
     exact fun h => h.elim hold (fun h' => ht h'.symm)
+
+/-! ## Tasks are identified by identity: composition never merges declared tasks -/
+
+/-- **task_identity_is_object_identity** (obligation re-checked against
+    `workflows/task.py` / `internals/immutable.py` on every run through
+    `Generated/C17Task.lean`): neither `Task` nor `Immutable` defines a comparison or
+    hash method, `Task` has no class decorator, no metaclass and no other base — so
+    the graph keys nodes by object identity, which is what the model's node ids are. -/
+theorem task_identity_is_object_identity : Generated.identityBreakers = [] := by decide
+
+/-- **add_task_keeps_all_tasks**: adding a task that is not yet in the workflow
+    always makes the workflow one task larger — whatever its name, function and
+    static inputs are (the graph operations never look at the task table, so two
+    distinct tasks that are equal by value stay two tasks). -/
+theorem add_task_keeps_all_tasks (g : DiGraph) (t : Nat) (ht : t ∉ g.nodes) :
+    (addTask g t none).nodes = g.nodes ++ [t] ∧ (addTask g t none).nodes.length = g.nodes.length + 1 := by
+  have : (addTask g t none).nodes = g.nodes ++ [t] := addNode_of_not_mem ht
+  exact ⟨this, by rw [this]; simp⟩
+
+/-- **compose_keeps_all_tasks**: `+` / `nx.compose` of workflows with disjoint task
+    identities has exactly |tasks(G)| + |tasks(H)| tasks, G's then H's. -/
+theorem compose_keeps_all_tasks (g h : DiGraph) (hg : WF g) (hh : WF h) (hdis : ∀ x ∈ g.nodes, x ∉ h.nodes) :
+    (plus g h).nodes = g.nodes ++ h.nodes ∧ (plus g h).nodes.length = g.nodes.length + h.nodes.length := by
+  have := compose_nodes_disjoint hg hh hdis
+  exact ⟨this, by unfold plus; rw [this]; simp⟩
+
+/-- **insert_workflow_keeps_all_tasks**: an accepted `insert_workflow(other)`
+    (predecessors=None) of a workflow with other task identities — e.g. the same
+    sub-workflow template instantiated a second time — has exactly the sum of the
+    declared tasks, in order; a refused one keeps the builder's tasks. -/
+theorem insert_workflow_keeps_all_tasks (g other : DiGraph) (hg : WF g) (ho : WF other)
+    (hdis : ∀ x ∈ g.nodes, x ∉ other.nodes) :
+    ((insertWorkflow g other none).2 = none ∧ (insertWorkflow g other none).1.nodes = g.nodes ++ other.nodes) ∨
+    ((insertWorkflow g other none).2 ≠ none ∧ (insertWorkflow g other none).1.nodes = g.nodes) := by
+  cases hc : connectEdges (insertOuts g none) other.inputNodes with
+  | error e =>
+    right
+    rw [insert_workflow_refusal_atomic _ _ _ e hc]
+    exact ⟨by simp, rfl⟩
+  | ok es =>
+    left
+    have hn := compose_nodes_disjoint hg ho hdis
+    have hep := connectEdges_endpoints hc
+    unfold insertWorkflow
+    simp only [hc]
+    refine ⟨trivial, ?_⟩
+    rw [addEdgesFrom_nodes_of_closed, hn]
+    intro e he
+    rw [hn]
+    exact ⟨List.mem_append_left _ (mem_outputNodes.mp (hep e he).1).1,
+           List.mem_append_right _ (mem_inputNodes.mp (hep e he).2).1⟩
+
+/-- **dask_dict_one_entry_per_task**: for EVERY task table (also one in which
+    several node ids carry the same name, function and static inputs) the dask
+    dict has one entry per task and pairwise distinct keys. -/
+theorem dask_dict_one_entry_per_task (tb : Table) (g : DiGraph) (d : List Entry) (hnd : g.nodes.Nodup)
+    (h : asDaskDict tb g = .ok d) : d.length = g.nodes.length ∧ (d.map (·.key)).Nodup := by
+  obtain ⟨sink, _, hk, hnd', _, _⟩ := dask_dict_faithful tb g d hnd h
+  refine ⟨?_, hnd'⟩
+  have := congrArg List.length hk
+  simpa using this
 
 /-- **builder_ops_exact (`+`)**: the union of tasks and of edges. -/
 theorem plus_exact (g h : DiGraph) (hg : WF g) (hh : WF h) :
